@@ -4,9 +4,12 @@ in : {"case": n, "name": "<column name>"}
 out: {"case": n, "name": .., "origin": Gen.cellsOrigin, "cells": [ {fn, engine, pos, sub, coercion,
        "str": model result of the string form, "col": model result of the col(name) form, "spec": PySpark's,
        "equal": str form = col form, "meets": both = spec, "scope": [violated hypothesis names]} … ]}
+     "struct": the model of struct(name, "c") for the four call forms (names / col objects, varargs / ONE list) with
+       sqlglot's readings kept symbolic (`symNames`: aliasOf(..), identOf(..)), and PySpark's,
+     "sites": for every generated unpacking site, whether the list form / the varargs form unpacks (else: raises)}
 One output line per input line; every row of the generated table `Gen.cells` is evaluated with the SAME
-definitions the theorems are about (`resultWith`, `specResult`, `violated`), the parser being the stand-in
-`parseStandIn` (identifier-like text = a column reference).
+definitions the theorems are about (`resultWith`, `specResult`, `violated`, `structCall`, `UnpackSite.unpack`), the
+parser being the stand-in `parseStandIn` (identifier-like text = a column reference).
 -/
 import SqlframeModel.Codec.C16
 open Lean Sqlframe Sqlframe.Gen Sqlframe.C16
@@ -29,12 +32,36 @@ def cellJson (n : String) (c : Cell) : Json :=
     ("equal", toJson (optBeq s k)), ("meets", toJson (optBeq s sp && optBeq k sp)),
     ("scope", toJson (violated c))]
 
+def structJson (n : String) : Json :=
+  match unpackSites.find? (fun s => s.api == "struct" && s.impl == "struct") with
+  | none => Json.mkObj [("err", toJson "no struct site")]
+  | some site =>
+    let ns := [n, "c"]
+    Json.mkObj [
+      ("varargs_str", renderOpt (structCall symNames site structFieldName (.varargs (strArgs ns)))),
+      ("list_str", renderOpt (structCall symNames site structFieldName (.oneList (strArgs ns)))),
+      ("varargs_col", renderOpt (structCall symNames site structFieldName (.varargs (colArgs ns)))),
+      ("list_col", renderOpt (structCall symNames site structFieldName (.oneList (colArgs ns)))),
+      ("spec", renderOpt (some (specStruct symNames ns)))]
+
+def siteJson (n : String) (s : UnpackSite) : Json :=
+  Json.mkObj [
+    ("api", toJson s.api), ("impl", toJson s.impl), ("engines", toJson (s.engines.map Engine.name)),
+    ("splices", toJson s.flattener.splices),
+    ("list_str", toJson (s.unpack (.oneList (strArgs [n, "c"]))).isSome),
+    ("varargs_str", toJson (s.unpack (.varargs (strArgs [n, "c"]))).isSome),
+    ("list_col", toJson (s.unpack (.oneList (colArgs [n, "c"]))).isSome),
+    ("varargs_col", toJson (s.unpack (.varargs (colArgs [n, "c"]))).isSome)]
+
 def handle (line : String) : String :=
   match Json.parse line >>= fromJson? (α := Case) with
   | .error e => Json.compress (Json.mkObj [("err", toJson s!"bad-input: {e}")])
   | .ok c =>
     Json.compress (Json.mkObj [
       ("case", toJson c.case), ("name", toJson c.name), ("origin", toJson cellsOrigin),
+      ("struct", structJson c.name),
+      ("sites", Json.arr (unpackSites.map (siteJson c.name)).toArray),
+      ("auto_alias", Json.mkObj [("from_result_only", toJson autoAliasFromResultOnly), ("not_for", toJson noAutoAlias)]),
       ("cells", Json.arr (cells.map (cellJson c.name)).toArray)])
 
 partial def loop (h : IO.FS.Stream) (out : IO.FS.Stream) : IO Unit := do
